@@ -644,6 +644,19 @@ func (s *State) DatagramParts(b, h int, parts []int) V {
 		ev["bufsame"] = false
 	}
 	ev["tailsame"] = tailsame
+	// one packet per frame means one object per frame: two entries of the result that are the same object
+	// share all state (a call on one is a call on the other)
+	distinct := true
+	seenPtr := map[uintptr]bool{}
+	for _, p := range ps {
+		if rv := reflect.ValueOf(p); rv.Kind() == reflect.Ptr && !rv.IsNil() {
+			if seenPtr[rv.Pointer()] {
+				distinct = false
+			}
+			seenPtr[rv.Pointer()] = true
+		}
+	}
+	ev["distinct"] = distinct
 	pl := make(L, len(parts))
 	for i, p := range parts {
 		pl[i] = p
